@@ -106,6 +106,12 @@ class RepoClass:
         self.mod = mod
         self.node = node
 
+    def __eq__(self, other):
+        return isinstance(other, RepoClass) and other.node is self.node
+
+    def __hash__(self):
+        return hash(id(self.node))
+
     def __repr__(self):
         return f'<class {self.mod.name}.{self.node.name}>'
 
@@ -114,9 +120,37 @@ class Instance(Host):
     """Instance of a repository class, for folding representation-level primitives
     (attribute dictionary + methods/properties looked up in the class body)."""
 
-    def __init__(self, cls: 'RepoClass'):
+    def __init__(self, cls: 'RepoClass', interp=None):
         object.__setattr__(self, '_cls', cls)
         object.__setattr__(self, '_d', {})
+        object.__setattr__(self, '_interp', interp)
+
+    # operators of repository classes (opt-in per evaluator: `instance_dunders`)
+    def _dunder(self, name, *args):
+        it = object.__getattribute__(self, '_interp')
+        if it is None or not it.instance_dunders:
+            return NotImplemented
+        try:
+            f = it._class_attr(self._cls.mod, None, self, self._cls, name)
+        except AnalysisError:
+            return NotImplemented
+        return f(*args)
+
+    def __eq__(self, other):
+        r = self._dunder('__eq__', other)
+        return (self is other) if r is NotImplemented else r
+
+    def __ne__(self, other):
+        r = self._dunder('__eq__', other)
+        return (self is not other) if r is NotImplemented else not r
+
+    def __or__(self, other):
+        return self._dunder('__or__', other)
+
+    def __ror__(self, other):
+        return self._dunder('__ror__', other)
+
+    __hash__ = object.__hash__
 
     def __setattr__(self, k, v):
         self._d[k] = v
@@ -181,6 +215,8 @@ _SAFE_BUILTINS = {
     'NotImplementedError': NotImplementedError, 'AssertionError': AssertionError,
     'IndexError': IndexError,
     'super': lambda *a, **k: _SuperStub(),
+    'NotImplemented': NotImplemented,
+    'type': lambda o: _canon_class(o._cls) if isinstance(o, Instance) else type(o),
 }
 
 _BINOPS = {
@@ -205,6 +241,36 @@ class _SuperStub(Host):
     def __getattr__(self, name):
         if name == '__init__':
             return lambda *a, **k: None
+        raise AttributeError(name)
+
+
+_CLASS_CACHE: dict = {}
+
+
+def _canon_class(cls):
+    """One RepoClass object per class definition, so that `type(a) is type(b)` means what it says."""
+    return _CLASS_CACHE.setdefault(id(cls.node), cls)
+
+
+class _SuperProxy(Host):
+    """Zero-argument super() of a method being folded: attributes come from the base classes."""
+
+    def __init__(self, interp, inst, cls):
+        object.__setattr__(self, '_p', (interp, inst, cls))
+
+    def __getattribute__(self, name):
+        if name in ('_p', '__class__', '__dict__'):
+            return object.__getattribute__(self, name)
+        interp, inst, cls = object.__getattribute__(self, '_p')
+        for b in interp._base_classes(cls):
+            try:
+                return interp._class_attr(b.mod, None, inst, b, name)
+            except AnalysisError:
+                continue
+        if name == '__init__':
+            return lambda *a, **k: None
+        if name == '__eq__':
+            return lambda other: inst is other
         raise AttributeError(name)
 
 
@@ -238,6 +304,8 @@ class Interp:
         self.eager_generators: set = set()
         self.method_oracles: dict = {}
         self.allow_while = False
+        self.real_super = False
+        self.instance_dunders = False
         self.max_steps = max_steps
         self.max_depth = max_depth
         self.steps = 0
@@ -344,6 +412,9 @@ class Interp:
         try:
             node = fn.node
             env = Env(parent=fn.closure)
+            par = fn.mod.parents.get(node) if self.real_super else None
+            if isinstance(par, ast.ClassDef):
+                env.vars['__class__'] = RepoClass(fn.mod, par)
             self._bind(fn.mod, node.args, args, kwargs, env, fn.closure)
             if isinstance(node, ast.Lambda):
                 return self.eval(fn.mod, node.body, env)
@@ -618,6 +689,12 @@ class Interp:
                 else:
                     d[self.eval(mod, k, env)] = self.eval(mod, v, env)
             return d
+        if isinstance(e, ast.YieldFrom):
+            out, found = env.lookup('__yielded__')
+            if not found:
+                self.unsupported(mod, e, 'yield from outside a vetted generator')
+            out.extend(list(self.eval(mod, e.value, env)))
+            return None
         if isinstance(e, ast.Yield):
             out, found = env.lookup('__yielded__')
             if not found:
@@ -774,6 +851,8 @@ class Interp:
                 return obj.members[attr]
             self.unsupported(mod, node, f'enum {obj.name} has no member {attr}')
         if isinstance(obj, RepoClass):
+            if attr in ('__name__', '__qualname__'):
+                return obj.node.name
             q = f'{obj.node.name}.{attr}'
             if q in obj.mod.functions:
                 return RepoFunc(self, obj.mod, obj.mod.functions[q])
@@ -787,7 +866,7 @@ class Interp:
             if attr in obj._d:
                 return obj._d[attr]
             return self._class_attr(mod, node, obj, obj._cls, attr)
-        if obj in (int, str, bytes, dict, list, tuple, set, bytearray, float):
+        if obj in (int, str, bytes, dict, list, tuple, set, bytearray, float) or (isinstance(obj, type) and getattr(obj, '__module__', '') in ('itertools', 'collections', 'functools', 'operator')):
             return getattr(obj, attr)
         if isinstance(obj, (Host, EnumMember)) or isinstance(
             obj, (list, tuple, dict, str, set, frozenset, int, bool, range, bytes, bytearray, float)
@@ -837,9 +916,12 @@ class Interp:
         )
 
     def instantiate(self, cls: 'RepoClass', args=(), kwargs=None):
-        inst = Instance(cls)
+        inst = Instance(cls, self)
         if f'{cls.node.name}.__init__' in cls.mod.functions:
             RepoFunc(self, cls.mod, cls.mod.functions[f'{cls.node.name}.__init__'], bound_self=inst)(*args, **(kwargs or {}))
+        elif self.real_super and self._inherited_init(cls) is not None:
+            bcls, fn = self._inherited_init(cls)
+            RepoFunc(self, bcls.mod, fn, bound_self=inst)(*args, **(kwargs or {}))
         elif any('dataclass' in norm(d) for d in cls.node.decorator_list):
             # synthesised __init__ of a dataclass: annotated class-level fields in order
             fields = [st for st in cls.node.body if isinstance(st, ast.AnnAssign) and isinstance(st.target, ast.Name)]
@@ -862,7 +944,34 @@ class Interp:
                 raise InterpRaise('TypeError')
         return inst
 
+    def _base_classes(self, cls):
+        out = []
+        for b in cls.node.bases:
+            try:
+                bv = self.eval(cls.mod, b, Env())
+            except AnalysisError:
+                continue
+            if isinstance(bv, RepoClass):
+                out.append(bv)
+        return out
+
+    def _inherited_init(self, cls, depth=0):
+        for b in self._base_classes(cls):
+            f = b.mod.functions.get(f'{b.node.name}.__init__')
+            if f is not None:
+                return b, f
+            if depth < 4:
+                r = self._inherited_init(b, depth + 1)
+                if r is not None:
+                    return r
+        return None
+
     def eval_call(self, mod, e: ast.Call, env):
+        if self.real_super and isinstance(e.func, ast.Name) and e.func.id == 'super' and not e.args and not e.keywords:
+            cls, okc = env.lookup('__class__')
+            inst, oki = env.lookup('self')
+            if okc and oki and isinstance(inst, Instance):
+                return _SuperProxy(self, inst, cls)
         fn = self.eval(mod, e.func, env)
         args = []
         for a in e.args:
